@@ -395,6 +395,17 @@ def run(ctx):
         if not okk:
             ctx.fail("C11-R6", ms.path, "sentinel", "no `msd.unwrap_or(sentinel)` found", ms.loc())
     ctx.assume("thresholds are clamped to [0,1] (C20-R1)")
+    # ---- R8: the threshold the pipeline reads is the one the user set
+    ctx.rule("C11-R8", "set_msd_threshold(i, f) stores clamp(f, 0, 1) into msd_threshold[i] for every f (one unconditional store; shared with C20-R1) and get_msd_threshold(i) returns that element - so every threshold in [0, 1], the limits included, takes effect")
+    from .c20 import check_setter
+    check_setter(ctx, p, "C11-R8", "set_msd_threshold")
+    gb = cm.body_or_fail(ctx, p, "C11-R8", "engine::Condition::get_msd_threshold")
+    if gb is not None:
+        gr = ExprBuilder(gb).local(0)
+        if gr[0] == "idx" and show(gr[1]) == "self.msd_threshold" and gr[2][0] == "arg" and gr[2][1] == 2:
+            ctx.ok("C11-R8", "get_msd_threshold(i) returns self.msd_threshold[i]", gb.loc())
+        else:
+            ctx.fail("C11-R8", gb.path, "getter", "get_msd_threshold returns %s" % show(gr)[:80], gb.loc())
     expl = ("Normal form of the voicing predicate, index agreement at the three MlpgAdjust::new call sites with parameter->field roles "
             "read from the constructor, access-path taint from condition.msd_threshold[k] / gv_weight[k] through Engine::generator "
             "(6 sources) showing each reaches only stream k's trajectory, identity of the no-data const item between writer and reader, "
